@@ -93,25 +93,30 @@ PROPS["C18"] = dict(
 
 # ----------------------------------------------------------------------------- C15
 PROPS["C15"] = dict(
-    units={"nets": dict(src=["harness/C15_networks.cpp"])},
+    units={"nets": dict(src=["harness/C15_networks.cpp"], flags=["-DVERIF_PART=0"]),
+           "nets_rand": dict(src=["harness/C15_networks.cpp"], flags=["-DVERIF_PART=1"])},
     quick=[
         R("nets", "plain", 17, 17, ["mode=zo"], partition=True),
         R("nets", "asan", 14, 14, ["mode=zo"], partition=True),      # n = 0..13 under ASan
         R("nets", "asan", 1, 17, ["mode=obl"], partition=True),
-        R("nets", "asan", 4, 50, ["mode=rand"]),
+        R("nets_rand", "asan", 4, 50, ["mode=rand"]),
     ],
     thorough=[
         R("nets", "plain", 17, 17, ["mode=zo"], partition=True),
         R("nets", "asan", 17, 17, ["mode=zo"], partition=True),
         R("nets", "asan", 1, 17, ["mode=obl"], partition=True),
-        R("nets", "asan", 16, 5000, ["mode=rand"]),
+        R("nets_rand", "asan", 16, 5000, ["mode=rand"]),
     ],
     rule="zo: one case per n in 0..16 = all 2^n zero-one inputs (elements carry unique ids, so "
          "permutation is checked by identity, plus a canary behind the range) x 3 families x "
-         "{size-specific sortN, dispatching sort(begin,end)} x {less, greater}; obl: the recorded "
+         "{size-specific sortN, dispatching sort(begin,end)} x {less, greater}, the dispatcher also through "
+         "reverse iterators, a strided iterator and deque iterators across a block boundary (objects outside "
+         "the range must stay untouched); obl: the recorded "
          "compare-exchange index sequence of every sortN is input-independent with i<j (premise of "
          "the zero-one principle); rand: random int/string/record inputs with duplicates under "
-         "several strict weak orders, checked for order and multiset equality. A class is a distinct "
+         "several strict weak orders (also a rank-table functor and a std::function, passed as one named object "
+         "that is used again after every call and must be left intact), the same iterator kinds, checked for "
+         "order and multiset equality. A class is a distinct "
          "(mode, family, entry point, order, n) tuple that completed.",
     exhaustive=dict(quick="all 2^n zero-one inputs for every n = 0..16, every family, both entry points, "
                           "ascending and descending (uninstrumented build; ASan build n <= 13)",
@@ -285,9 +290,12 @@ def _bt_units(configs):
 
 def _bt_runs(configs, variant, count, prop, timeout=1800, heavy_div=15):
     # groups 4 and 5 (std::string / Tracked elements) cost 10-15x more per case
-    return [R("bt_%d_%d_g%d" % (l, i, g), variant, 1, max(4, count // (heavy_div if g >= 4 else 1)),
-              ["prop=" + prop], timeout=timeout)
-            for (l, i) in configs for g in range(6)]
+    # (and more still with big nodes: those runs are spread over 4 workers so that they do not form the tail)
+    def one(l, i, g):
+        n = max(4, count // (heavy_div if g >= 4 else 1))
+        w = 4 if (g >= 4 and l * i >= 256 and n >= 64) else 1
+        return R("bt_%d_%d_g%d" % (l, i, g), variant, w, max(4, n // w), ["prop=" + prop], timeout=timeout)
+    return [one(l, i, g) for (l, i) in configs for g in range(6)]
 
 
 _BT_RULE = ("a case = 4 operation histories (2 container instantiations of the unit's group x binary/linear "
